@@ -148,6 +148,8 @@ func (w *World) Run(sc *Scenario, o RunOpts) *Outcome {
 			_ = os.RemoveAll(filepath.Dir(tmp))
 		}
 	}()
+	var hardlinks [][2]string
+	var fifos []string
 	for i := range sc.Files {
 		f := &sc.Files[i]
 		if f.Missing || f.Name == "-" {
@@ -169,6 +171,27 @@ func (w *World) Run(sc *Scenario, o RunOpts) *Outcome {
 			}
 			continue
 		}
+		if f.Hardlink != "" {
+			hardlinks = append(hardlinks, [2]string{filepath.Join(work, f.Hardlink), p})
+			continue
+		}
+		if f.Fifo {
+			if err := syscall.Mkfifo(p, 0644); err != nil {
+				harnessPanic("mkfifo %v", err)
+			}
+			fifos = append(fifos, p)
+			data := f.Bytes()
+			go func(path string, data []byte) {
+				// blocks until yq opens the pipe for reading (or until the driver releases it after the run)
+				w, err := os.OpenFile(path, os.O_WRONLY, 0)
+				if err != nil {
+					return
+				}
+				_, _ = w.Write(data)
+				_ = w.Close()
+			}(p, data)
+			continue
+		}
 		if err := os.WriteFile(p, f.Bytes(), 0600); err != nil {
 			harnessPanic("write %v", err)
 		}
@@ -178,6 +201,11 @@ func (w *World) Run(sc *Scenario, o RunOpts) *Outcome {
 		}
 		if err := os.Chmod(p, fileMode(mode)); err != nil {
 			harnessPanic("chmod %v", err)
+		}
+	}
+	for _, hl := range hardlinks {
+		if err := os.Link(hl[0], hl[1]); err != nil {
+			harnessPanic("link %v", err)
 		}
 	}
 	plan := sc.Plan
@@ -283,6 +311,12 @@ func (w *World) Run(sc *Scenario, o RunOpts) *Outcome {
 		_ = syscall.Kill(-cmd.Process.Pid, syscall.SIGKILL)
 		werr = <-done
 	}
+	for _, p := range fifos {
+		// release a feeder that is still waiting for a reader (yq never opened the pipe)
+		if r, err := os.OpenFile(p, os.O_RDONLY|syscall.O_NONBLOCK, 0); err == nil {
+			_ = r.Close()
+		}
+	}
 	out.Wall = time.Since(start)
 	out.Stdout = so.Bytes()
 	out.Stderr = se.Bytes()
@@ -348,6 +382,10 @@ func snapshotDir(dir string) map[string]FileState {
 		rel, _ := filepath.Rel(dir, p)
 		if info.IsDir() {
 			res[rel] = FileState{Dir: true}
+			return nil
+		}
+		if info.Mode()&os.ModeNamedPipe != 0 {
+			res[rel] = FileState{Mode: 0, Data: []byte("fifo")}
 			return nil
 		}
 		if info.Mode()&os.ModeSymlink != 0 {
